@@ -277,7 +277,7 @@ func (m *Machine) lockRelease(p Ptr, write bool) {
 		l.readers--
 	}
 	m.hbRelease(l)
-	m.Yield(nil, "Unlock")
+	// releases are left movers: no scheduling point needed after them
 }
 
 func (m *Machine) hbAcquire(l *lockState) {
@@ -482,13 +482,39 @@ func init() {
 		lockerCall(m, l, "Lock")
 		return nil
 	})
+	// primitive.WaitTimeout: a cond wait that may also return because the timeout fired
+	// (at any moment; at most 3 timeouts per path). Its real body (goroutine + select on time.After)
+	// is explored separately by C16's thorough tier.
+	reg("github.com/goose-lang/primitive.WaitTimeout", func(m *Machine, fn *ssa.Function, a []Value) Value {
+		c := recvPtr(a)
+		cs := m.Mon.cond(c)
+		w := &condWaiter{thread: m.Sched.cur.id}
+		cs.waiters = append(cs.waiters, w)
+		l := condLocker(m, c)
+		lockerCall(m, l, "Unlock")
+		n, _ := m.Extra["timeouts"].(int)
+		if n < 3 {
+			m.Extra["timeouts"] = n + 1
+			m.Yield(nil, "WaitTimeout")
+			if !w.signalled {
+				for i, x := range cs.waiters {
+					if x == w {
+						cs.waiters = append(append([]*condWaiter{}, cs.waiters[:i]...), cs.waiters[i+1:]...)
+					}
+				}
+			}
+		} else {
+			m.Yield(func() bool { return w.signalled }, "WaitTimeout")
+		}
+		lockerCall(m, l, "Lock")
+		return nil
+	})
 	reg("(*sync.Cond).Signal", func(m *Machine, fn *ssa.Function, a []Value) Value {
 		cs := m.Mon.cond(recvPtr(a))
 		if len(cs.waiters) > 0 {
 			cs.waiters[0].signalled = true
 			cs.waiters = cs.waiters[1:]
 		}
-		m.Yield(nil, "Cond.Signal")
 		return nil
 	})
 	reg("(*sync.Cond).Broadcast", func(m *Machine, fn *ssa.Function, a []Value) Value {
@@ -497,7 +523,6 @@ func init() {
 			w.signalled = true
 		}
 		cs.waiters = nil
-		m.Yield(nil, "Cond.Broadcast")
 		return nil
 	})
 	reg("(*sync.WaitGroup).Add", func(m *Machine, fn *ssa.Function, a []Value) Value {
@@ -507,7 +532,6 @@ func init() {
 		if wg.n < 0 {
 			m.goPanicStr("sync: negative WaitGroup counter")
 		}
-		m.Yield(nil, "WaitGroup.Add")
 		return nil
 	})
 	reg("(*sync.WaitGroup).Done", func(m *Machine, fn *ssa.Function, a []Value) Value {
@@ -516,7 +540,6 @@ func init() {
 		if wg.n < 0 {
 			m.goPanicStr("sync: negative WaitGroup counter")
 		}
-		m.Yield(nil, "WaitGroup.Done")
 		return nil
 	})
 	reg("(*sync.WaitGroup).Wait", func(m *Machine, fn *ssa.Function, a []Value) Value {
@@ -554,6 +577,7 @@ type ChanV struct {
 	elem   types.Type
 	timer  bool // fires at a nondeterministic moment
 	fired  bool
+	exhausted bool // the per-path budget of timer firings is used up: this timer never fires
 }
 
 type sendItem struct {
@@ -566,8 +590,20 @@ func (m *Machine) newChan(size int, elem types.Type) *ChanV {
 	return &ChanV{id: m.nextMap, cap: size, elem: elem}
 }
 
+// newTimer creates a timer channel; at most 3 timers per path are allowed to fire (bounded unfairness).
+func (m *Machine) newTimer(elem types.Type) *ChanV {
+	c := m.newChan(1, elem)
+	c.timer = true
+	n, _ := m.Extra["timers"].(int)
+	m.Extra["timers"] = n + 1
+	if n >= 3 {
+		c.exhausted = true
+	}
+	return c
+}
+
 func (c *ChanV) recvReady() bool {
-	return len(c.buf) > 0 || len(c.sendq) > 0 || c.closed || c.timer
+	return len(c.buf) > 0 || len(c.sendq) > 0 || c.closed || (c.timer && !c.exhausted)
 }
 
 func (c *ChanV) sendReady() bool {
@@ -682,7 +718,7 @@ func (m *Machine) selectOp(fr *frame, i *ssa.Select) Value {
 				onlyTimers = false
 			}
 		}
-		if len(rs) > 0 && !(onlyTimers && m.othersRunnable() && m.Choose(2, "timer-wait") == 1) {
+		if len(rs) > 0 && !(onlyTimers && m.othersRunnable() && m.timerWaits() && m.Choose(2, "timer-wait") == 1) {
 			break
 		}
 		if len(rs) == 0 && !i.Blocking {
@@ -752,4 +788,14 @@ func (m *Machine) othersRunnable() bool {
 // yieldToOther forces a switch to some other runnable thread.
 func (m *Machine) yieldToOther(what string) {
 	m.Yield(nil, what)
+}
+
+// timerWaits bounds how often a pending timer may be left un-fired in favour of other threads.
+func (m *Machine) timerWaits() bool {
+	n, _ := m.Extra["timerwaits"].(int)
+	if n >= 3 {
+		return false
+	}
+	m.Extra["timerwaits"] = n + 1
+	return true
 }
